@@ -409,10 +409,12 @@ type blobWorld struct {
 	tmp    string
 	ctl    *vfs.Control
 
-	digests []*blobDigest
-	names   []*nameModel
-	plans   [][]blobOp
-	post    []blobOp
+	digests         []*blobDigest
+	names           []*nameModel
+	plans           [][]blobOp
+	post            []blobOp
+	redoInterrupted bool
+	inflight        map[string]blobOp // operations in progress, by writer (what the crash interrupted)
 
 	isolated bool
 	stepNo   int
@@ -649,6 +651,7 @@ func (w *blobWorld) drawPlan() {
 	}
 	// operations of the restarted process (crash runs only; drawn always so that the tape layout is the same)
 	npost := D("npost", 4)
+	w.redoInterrupted = D("redo-interrupted", 2) == 0
 	all := func(n int) []int {
 		xs := make([]int, n)
 		for i := range xs {
@@ -1290,6 +1293,16 @@ func (w *blobWorld) doLinks(who string) {
 
 func (w *blobWorld) doOp(who string, op blobOp) {
 	w.info["ops"]++
+	if w.inflight == nil {
+		w.inflight = map[string]blobOp{}
+	}
+	w.inflight[who] = op
+	w.doOp1(who, op)
+	// not deferred: a writer unwound by the crash leaves its entry behind, which is the point
+	delete(w.inflight, who)
+}
+
+func (w *blobWorld) doOp1(who string, op blobOp) {
 	switch op.kind {
 	case opPut:
 		w.doPut(who, op)
@@ -1394,6 +1407,31 @@ func (w *blobWorld) recoverTask() {
 	w.c = c
 	verifsim.Probe("crash_reopened")
 	w.audit("after crash+reopen")
+	// what a client does after the process died under it: the interrupted store operations are
+	// repeated (fault-free) - one run in two, before anything else touches what they left behind
+	if w.redoInterrupted {
+		var whos []string
+		for who := range w.inflight {
+			whos = append(whos, who)
+		}
+		sort.Strings(whos)
+		for _, who := range whos {
+			op := w.inflight[who]
+			if op.kind != opPut && op.kind != opImport && op.kind != opChunked {
+				continue
+			}
+			op.rf.mode = rdNone
+			op.retry = false
+			op.chunks = append([]chunkPlan(nil), op.chunks...)
+			for i := range op.chunks {
+				op.chunks[i].rf.mode, op.chunks[i].skip, op.chunks[i].badDigest = rdNone, false, false
+			}
+			verifsim.Probe("interrupted_store_repeated")
+			w.note("restarted process repeats the interrupted %s", w.opString(op))
+			w.doOp("restarted", op)
+		}
+		w.audit("after repeating the interrupted operations")
+	}
 	for _, op := range w.post {
 		w.note("restarted process: %s", w.opString(op))
 		w.doOp("restarted", op)
